@@ -44,3 +44,64 @@ package engine
 //@     set okNil = ret0
 //@   call append
 //@     requires okLoaded || okNil
+
+// ================================================================ C01: write path, flush and log protocol
+//@ prop C01
+
+// A write is acknowledged (nil) only after BOTH the memtable insert and the log append returned nil,
+// and both happen while the shared snapshot lock is held (so a flush cannot swap tables in between).
+//@ func (*shard).writeRows
+//@   ghost rheld bool = false
+//@   ghost mem int = 0
+//@   ghost wal int = 0
+//@   call (*sync.RWMutex).RLock on s.snapshotLock
+//@     set rheld = true
+//@   call .WriteRows
+//@     requires rheld
+//@     set mem = (ret0 == nil ? 1 : 2)
+//@   call (*WAL).Write
+//@     requires rheld && mem == 1 && arg0 == binaryRows
+//@     set wal = (ret0 == nil ? 1 : 2)
+//@   ensures result == nil ==> mem == 1 && wal == 1
+
+// Flush protocol: switch the log and swap the tables inside one exclusive section; flush the index, commit
+// the snapshot, and only then remove the switched log files; clear the snapshot table under the lock.
+//@ func (*tsstoreImpl).writeSnapshot
+//@   ghost held bool = false
+//@   ghost st int = 0
+//@   call (*sync.RWMutex).Lock on s.snapshotLock
+//@     requires !held
+//@     set held = true
+//@   call (*sync.RWMutex).Unlock on s.snapshotLock
+//@     requires held
+//@     set held = false
+//@   call (*WAL).Switch
+//@     requires held && st == 0
+//@     set st = 1
+//@   store shard.snapshotTbl
+//@     requires held && (st == 1 || st == 4)
+//@   store shard.activeTbl
+//@     requires held && st == 1
+//@   call (*IndexBuilder).Flush
+//@     requires st == 1 && !held
+//@     set st = 2
+//@   call (*shard).commitSnapshot
+//@     requires st == 2
+//@     set st = 3
+//@   call RemoveWalFiles
+//@     requires st == 3
+//@     set st = 4
+//@   ensures !held
+
+// Round-robin placement: the record with sequence number q (the value of writeReq before the increment)
+// goes to partition q mod N; serial replay rebuilds acknowledgement order from exactly this placement.
+//@ func (*WAL).writeBinary
+//@   requires l != nil
+//@   ghost q int = 0
+//@   ghost took bool = false
+//@   call AddUint64 on l.writeReq
+//@     requires !took && arg1 == 1
+//@     set q = ret0 - 1
+//@     set took = true
+//@   call (*LogWriter).Write
+//@     requires took && l.partitionNum > 0 ==> recv == l.logWriter[q % l.partitionNum]
